@@ -87,7 +87,7 @@ def drive(ctx, zr, name, args):
     return name, None, None, args
 
 
-_re_mism = re.compile(r'<<"MISMATCH", (\d+), (<<.*?>>)>>')
+_re_mism = re.compile(r'<<\s*"MISMATCH",\s*(\d+),\s*(<<.*?>>)\s*>>')
 
 
 def validate(ctx, name, f):
